@@ -173,10 +173,23 @@ func one(v Vec) (why string) {
 			author, err = identity.NewIdentityFull(w, "v0", "a@example.org", "", "", keysOf(ver.Keys))
 			hx.Must(err)
 		} else {
+			// a rotation that keeps the number of keys (> 0) replaces them in place and touches nothing else (what code holding the
+			// mutator's slice does); any other change assigns a new list and renames
+			prev := v.Hist[i-1].Keys
+			inPlace := len(prev) == len(ver.Keys) && len(prev) > 0 && fmt.Sprint(prev) != fmt.Sprint(ver.Keys)
 			hx.Must(author.Mutate(w, func(m *identity.Mutator) {
+				if inPlace {
+					for j, k := range keysOf(ver.Keys) {
+						m.Keys[j] = k
+					}
+					return
+				}
 				m.Name = fmt.Sprintf("v%d", i)
 				m.Keys = keysOf(ver.Keys)
 			}))
+			if inPlace && !author.NeedCommit() {
+				return fmt.Sprintf("version %d replaces the keys %v by %v in place: Mutate reported success and recorded no new version", i, prev, ver.Keys)
+			}
 		}
 		hx.Must(author.Commit(w))
 	}
